@@ -24,6 +24,7 @@ type chainState struct {
 	XAppend, XFirst, YIn bool
 	Marks                map[string]bool // fail-y-exit, fail-y-timeout, fail-y-noout, fail-x-exit, w-destroyed, w-broken
 	NoCachePos           string          // "", "x", "y"  (fixed per universe)
+	DelOutputs           bool            // pending: all outputs are deleted from the workspace before the next build
 	Queue                bool            // universe with num_workers=1 and three extra independent targets
 	Minimal              bool            // universe built with --load-outputs=minimal
 }
@@ -47,7 +48,7 @@ func (c chainState) key() string {
 		}
 	}
 	sort.Strings(ms)
-	return fmt.Sprintf("%v%v%v|%s|%s|%v|%v", c.XAppend, c.XFirst, c.YIn, strings.Join(ms, ","), c.NoCachePos, c.Queue, c.Minimal)
+	return fmt.Sprintf("%v%v%v|%s|%s|%v|%v|%v", c.XAppend, c.XFirst, c.YIn, strings.Join(ms, ","), c.NoCachePos, c.Queue, c.Minimal, c.DelOutputs)
 }
 
 func (c chainState) xIn() string {
@@ -104,6 +105,15 @@ echo "end $GROG_TARGET" >> "$VTRACE"`
 printf 'z(%s)' "$(cat y.out)" > z.out
 echo "end $GROG_TARGET" >> "$VTRACE"`
 	s.Targets = append(s.Targets, hist.Target{Pkg: "p", Name: "z", Command: zCmd, Outputs: []string{"z.out"}, Deps: []string{":y"}})
+	// d: a DIRECTORY output derived from x.out; e depends on d (early cut-off through a directory output)
+	s.Targets = append(s.Targets, hist.Target{Pkg: "p", Name: "d", Deps: []string{":x"}, Outputs: []string{"dir::dd"}, Command: traceStart + `
+rm -rf dd && mkdir -p dd/sub
+printf 'd(%s)' "$(cat x.out)" > dd/f.txt
+printf 'const' > dd/sub/g.txt
+echo "end $GROG_TARGET" >> "$VTRACE"`})
+	s.Targets = append(s.Targets, hist.Target{Pkg: "p", Name: "e", Deps: []string{":d"}, Outputs: []string{"e.out"}, Command: traceStart + `
+printf 'e(%s,%s)' "$(cat dd/f.txt)" "$(cat dd/sub/g.txt)" > e.out
+echo "end $GROG_TARGET" >> "$VTRACE"`})
 	if c.Queue {
 		for _, n := range []string{"i1", "i2", "i3"} {
 			s.Targets = append(s.Targets, hist.Target{Pkg: "p", Name: n, Command: traceStart + "\nprintf '" + n + "' > " + n + ".out", Outputs: []string{n + ".out"}, Inputs: []string{"y.in"}})
@@ -120,6 +130,9 @@ echo "end $GROG_TARGET" >> "$VTRACE"`
 		OutputChecks: []hist.Check{{Command: `if [ -e "$VMARK/w-destroyed" ]; then echo 2; else echo 1; fi`, ExpectedOutput: "1"}, {Command: `test ! -e "$VMARK/w-destroyed"`}}})
 	return s
 }
+
+// chainTargets in topological order
+var chainTargets = []string{"x", "y", "z", "d", "e", "w"}
 
 type chainOp struct {
 	Name string
@@ -219,22 +232,32 @@ func chainBoxKey(b *hist.Box) string {
 func (e *chainEngine) predict(st chainState, m *chainModel, cacheDisabled bool) (pred map[string]string, failed []string, after chainState) {
 	pred = map[string]string{}
 	after = st.clone()
-	out := map[string]string{"x": st.xOut(), "y": st.yOut(), "z": st.zOut(), "w": "w"}
+	out := map[string]string{"x": st.xOut(), "y": st.yOut(), "z": st.zOut(), "w": "w", "d": "d(" + st.xOut() + ")", "e": "e(d(" + st.xOut() + "),const)"}
+	deps := map[string][]string{"y": {"x"}, "z": {"y"}, "d": {"x"}, "e": {"d"}}
 	keyOf := func(t string) string {
 		switch t {
 		case "x":
 			return "x|" + st.xIn()
 		case "y":
 			return "y|" + out["x"] + "|" + st.yIn()
-		case "z":
-			return "z|" + out["y"]
+		case "w":
+			return "w|" + st.xIn()
 		}
-		return "w|" + st.xIn()
+		k := t
+		for _, d := range deps[t] {
+			k += "|" + out[d]
+		}
+		return k
 	}
 	upFailed := map[string]bool{}
-	deps := map[string]string{"y": "x", "z": "y"}
-	for _, t := range []string{"x", "y", "z", "w"} {
-		if d, ok := deps[t]; ok && upFailed[d] {
+	for _, t := range chainTargets {
+		skip := false
+		for _, d := range deps[t] {
+			if upFailed[d] {
+				skip = true
+			}
+		}
+		if skip {
 			upFailed[t] = true
 			pred[t] = ""
 			continue
@@ -276,10 +299,11 @@ func (e *chainEngine) predict(st chainState, m *chainModel, cacheDisabled bool) 
 			} else {
 				// unknown whether it runs: no prediction for everything downstream
 				pred[t] = "?"
-				upFailed[t] = false
-				for d, up := range deps {
-					if up == t {
-						pred[d] = "?"
+				for d, ups := range deps {
+					for _, up := range ups {
+						if up == t {
+							pred[d] = "?"
+						}
 					}
 				}
 			}
@@ -299,7 +323,7 @@ func (e *chainEngine) predict(st chainState, m *chainModel, cacheDisabled bool) 
 	if cacheDisabled {
 		// output digests of this build were computed the no-cache way: what later
 		// builds find for these states is not specified
-		for _, t := range []string{"x", "y", "z", "w"} {
+		for _, t := range chainTargets {
 			if m.Cache[keyOf(t)] != "" {
 				m.Cache[keyOf(t)] = "maybe"
 			}
@@ -313,6 +337,8 @@ func (e *chainEngine) doOp(n *cnode, op chainOp) *cnode {
 	case "edit", "mark":
 		c := &cnode{box: n.box, boxKey: n.boxKey, st: n.st.clone(), built: n.built, model: n.model, hist: append(append([]string{}, n.hist...), op.Name), lastOp: op.Name}
 		switch op.Arg {
+		case "delete-outputs":
+			c.st.DelOutputs = true
 		case "x-append":
 			c.st.XAppend = !c.st.XAppend
 		case "x-first":
@@ -340,6 +366,12 @@ func (e *chainEngine) doOp(n *cnode, op chainOp) *cnode {
 	}
 	src.Materialize(box.WS(), prev)
 	syncMarks(box, n.st)
+	if n.st.DelOutputs && op.Kind == "build" {
+		outs, _ := filepath.Glob(filepath.Join(box.WS(), "p", "*.out"))
+		for _, o := range outs {
+			os.Remove(o)
+		}
+	}
 	histNow := append(append([]string{}, n.hist...), op.Name)
 	model := n.model.clone()
 	last := n.lastOp
@@ -424,7 +456,7 @@ func (e *chainEngine) doOp(n *cnode, op chainOp) *cnode {
 		return k
 	}
 	unexpectedFailure := len(failed) == 0 && rr.Exit != 0
-	for _, t := range []string{"x", "y", "z", "w"} {
+	for _, t := range chainTargets {
 		p := pred[t]
 		if unexpectedFailure {
 			break // reported below as a failing build; which targets ran is then not meaningful
@@ -457,7 +489,7 @@ func (e *chainEngine) doOp(n *cnode, op chainOp) *cnode {
 			sig := "C02:unexpected-execution://p:" + t
 			up := false
 			for _, f := range failed {
-				if (f == "x" && (t == "y" || t == "z")) || (f == "y" && t == "z") {
+				if (f == "x" && (t == "y" || t == "z" || t == "d" || t == "e")) || (f == "y" && t == "z") {
 					up = true
 				}
 			}
@@ -517,7 +549,7 @@ func (e *chainEngine) doOp(n *cnode, op chainOp) *cnode {
 	}
 	if rr.Exit == 0 && !wantFail {
 		// outputs must be the deterministic function of the sources
-		want := map[string]string{"p/x.out": n.st.xOut(), "p/y.out": n.st.yOut(), "p/z.out": n.st.zOut(), "p/w.out": "w"}
+		want := map[string]string{"p/x.out": n.st.xOut(), "p/y.out": n.st.yOut(), "p/z.out": n.st.zOut(), "p/w.out": "w", "p/e.out": "e(d(" + n.st.xOut() + "),const)"}
 		for p, w := range want {
 			tname := strings.TrimSuffix(strings.TrimPrefix(p, "p/"), ".out")
 			if n.st.Minimal && !executed[tname] {
@@ -548,6 +580,7 @@ func (e *chainEngine) doOp(n *cnode, op chainOp) *cnode {
 	newMarks := readMarks(box)
 	st := after.clone()
 	st.Marks = newMarks
+	st.DelOutputs = false
 	if fmt.Sprint(after.Marks) != fmt.Sprint(newMarks) {
 		// the external condition evolved differently from the model (e.g. w did not run)
 		for k := range st.Marks {
@@ -555,7 +588,7 @@ func (e *chainEngine) doOp(n *cnode, op chainOp) *cnode {
 		}
 	}
 	e.c.R.Outcome(fmt.Sprintf("%s exec=%s exit=%d", op.Name, fmtSet(executed), rr.Exit))
-	if len(executed) > 0 && len(executed) < 4 {
+	if len(executed) > 0 && len(executed) < len(chainTargets) {
 		e.c.R.Nontrivial(strings.Join(histNow, ">") + "|" + n.st.NoCachePos)
 	}
 	e.c.R.AddCounts(1, 0, 1, 1)
@@ -724,9 +757,11 @@ var (
 	opEditAppend = chainOp{Name: "edit x.in (output of x unchanged)", Kind: "edit", Arg: "x-append"}
 	opEditFirst  = chainOp{Name: "edit x.in (output of x changes)", Kind: "edit", Arg: "x-first"}
 	opEditY      = chainOp{Name: "edit y.in", Kind: "edit", Arg: "y-in"}
+	opDelOutputs = chainOp{Name: "delete all outputs from the workspace", Kind: "edit", Arg: "delete-outputs"}
 	opTaintX     = chainOp{Name: "taint //p:x", Kind: "taint", Arg: "x", Args: []string{"//p:x"}}
 	opTaintY     = chainOp{Name: "taint //p:y", Kind: "taint", Arg: "y", Args: []string{"//p:y"}}
-	opTaintAll   = chainOp{Name: "taint //p/...", Kind: "taint", Arg: "x,y,z,w", Args: []string{"//p/..."}}
+	opTaintAll   = chainOp{Name: "taint //p/...", Kind: "taint", Arg: "x,y,z,d,e,w", Args: []string{"//p/..."}}
+	opTaintD     = chainOp{Name: "taint //p:d", Kind: "taint", Arg: "d", Args: []string{"//p:d"}}
 )
 
 func markOp(m string) chainOp { return chainOp{Name: "mark " + m, Kind: "mark", Arg: m} }
@@ -737,7 +772,7 @@ func init() {
 		c.R.Assume("after a build with the cache disabled (or of a no-cache target) the model makes no prediction for the affected states until they were built normally again (the documentation does not specify it)", "the detached goroutine that clears a taint has two schedules (before / after process exit): the adverse one is forced by delaying TaintCache.Clear by 1.5 s (a slow cache backend; grog idles about 0.5 s before exiting) in a second binary built through the overlay")
 		chainCheck("C13", []string{"C13:"}, 4, 5, func(e *chainEngine, thorough bool) {
 			e.noCache = []string{"", "x", "y"}
-			e.ops = []chainOp{opEditAppend, opEditFirst, opTaintX, opTaintY, opBuild, opBuildNoC, opBuildSlow}
+			e.ops = []chainOp{opEditAppend, opEditFirst, opTaintX, opTaintY, opTaintD, opBuild, opBuildNoC, opBuildSlow}
 			if thorough {
 				e.ops = append(e.ops, opTaintAll, opEditY)
 			}
